@@ -277,6 +277,30 @@ func genC01(c *Ctx) {
 		copy(msgBuf, msgA)
 		emitVerify("history/restored", key, hpA, sigBuf, verifyAns(pkOf(hi+1), sigBuf, msgBuf, h))
 	}
+	// many domain tags in one process, each used, then every one of them used again (hashers handed out from a bounded
+	// table or a cache keyed by the tag must still be the hasher of THAT tag): signatures predicted from the message
+	{
+		nTags := 40
+		k := c.randScalar()
+		sk := skFromInt(k)
+		pk := sk.PublicKey()
+		msg := c.bytes(20)
+		tagOf := func(i int) string { return fmt.Sprintf("many-tags-%d", i) }
+		for round := 0; round < 2; round++ {
+			for i := 0; i < nTags; i++ {
+				h := crypto.NewExpandMsgXOFKMAC128(tagOf(i))
+				sig, err := sk.Sign(msg, h)
+				if err != nil {
+					panic(err)
+				}
+				c.Case(fmt.Sprintf("many-tags/round%d", round), fmt.Sprintf("bls.signmsg 0x%s %s %s", k.Text(16), hx([]byte(tagOf(i))), hx(msg)), "ok "+hx(sig))
+				// the signature of the neighbouring tag is not a signature under this tag
+				h2 := crypto.NewExpandMsgXOFKMAC128(tagOf((i + 1) % nTags))
+				other, _ := sk.Sign(msg, h2)
+				c.Case(fmt.Sprintf("many-tags-cross/round%d", round), "expect false #", verifyAns(pk, other, msg, crypto.NewExpandMsgXOFKMAC128(tagOf(i))))
+			}
+		}
+	}
 	// fixed hashers: chosen 128-byte outputs including chunks >= p
 	ones := make([]byte, 128)
 	for i := range ones {
